@@ -1,6 +1,7 @@
 package main
 
 import (
+	"encoding/json"
 	"fmt"
 	"math"
 	"math/bits"
@@ -100,7 +101,7 @@ func hllFlags() [][2]bool { return [][2]bool{{false, false}, {false, true}, {tru
 func suiteHLL(c *Ctx) {
 	c.rep.Rule = "case = (m, backend) x stream of elements (with duplicates) + a permutation + a split into two merged sketches; non-trivial = >=4 distinct elements, at least one duplicate and two elements sharing a register; distinct by (m, stream)"
 	cases := c.scale(60, 600)
-	ms := []uint64{128, 128, 256, 512, 1024, 4096, 16, 32, 64}
+	ms := []uint64{128, 128, 256, 512, 1024, 4096, 16, 32, 64, 2, 4, 8, 4, 8}
 	for i := 0; i < cases; i++ {
 		m := ms[c.rng.Intn(len(ms))]
 		hllCase(c, m, i%2 == 1)
@@ -224,6 +225,11 @@ func hllCase(c *Ctx, m uint64, redis bool) {
 	for _, j := range stream[cut:] {
 		Y.Update(pool[j])
 	}
+	// queries before the merge (a cached estimate must not survive it)
+	for _, fl := range hllFlags() {
+		X.Count(fl[0], fl[1])
+		Y.Count(fl[0], fl[1])
+	}
 	rx, _ := hllRegs(X)
 	ry, _ := hllRegs(Y)
 	c.op("Merge")
@@ -248,11 +254,13 @@ func hllCase(c *Ctx, m uint64, redis bool) {
 	}
 	for fi, fl := range hllFlags() {
 		v, _ := X.Count(fl[0], fl[1])
+		c.emit("hll.count %d %s %d %d %d", m, natList(rm), b2i(fl[0]), b2i(fl[1]), v)
 		if v != countsA[fi] {
 			c.fail([]string{"C06", "C08"}, "hll-merge-not-union", fmt.Sprintf("%s: merged Count %d != %d", cfg, v, countsA[fi]), replay)
 			return
 		}
 	}
+	hllCraftedMerge(c, m, redis, cfg)
 	// idempotent: merging Y again, and merging a sketch with itself, change nothing
 	X.Merge(Y)
 	X.Merge(X)
@@ -436,4 +444,70 @@ func hllAccCase(c *Ctx, m, n uint64, redis bool) {
 		c.nontrivial(cfg)
 	}
 	c.sample(map[string]interface{}{"config": cfg})
+}
+
+// hllCraftedMerge: merge operands whose registers are set at arbitrary positions (first, last,
+// random) through a crafted Import document - states Update alone reaches only with probability
+// 2^-rank.  The merge must be the register-wise maximum (model line hll.merge) and commutative.
+func hllCraftedMerge(c *Ctx, m uint64, redis bool, cfg string) {
+	mk := func() (hllHandle, []uint64, bool) {
+		h, err := newHLL(m, redis)
+		if err != nil {
+			return nil, nil, false
+		}
+		d, err := parseHLL(h.Export())
+		if err != nil {
+			return nil, nil, false
+		}
+		regs := make([]uint8, m)
+		for _, i := range []uint64{0, m - 1, uint64(c.rng.Intn(int(m))), uint64(c.rng.Intn(int(m)))} {
+			if c.rng.Intn(3) != 0 {
+				regs[i] = uint8(1 + c.rng.Intn(30)) // small enough that the estimate stays far below 2^63
+			}
+		}
+		d.R = regs
+		doc, _ := json.Marshal(d)
+		var ierr error
+		switch x := h.(type) {
+		case hllMem:
+			ierr = x.h.Import(doc)
+		case hllRedis:
+			ierr = x.h.Import(doc, true)
+		}
+		if ierr != nil {
+			return nil, nil, false
+		}
+		out, _ := hllRegs(h)
+		return h, out, true
+	}
+	A, ra, ok1 := mk()
+	B, rb, ok2 := mk()
+	if !ok1 || !ok2 {
+		return
+	}
+	for _, fl := range hllFlags() {
+		A.Count(fl[0], fl[1])
+	}
+	if err := A.Merge(B); err != nil {
+		c.fail([]string{"C06", "C08"}, "hll-merge-fails", fmt.Sprintf("%s: merge of imported sketches failed: %v", cfg, err), cfg)
+		return
+	}
+	rm, _ := hllRegs(A)
+	c.emit("hll.merge %d %s %d %s %s", m, natList(ra), m, natList(rb), natList(rm))
+	for i := range rm {
+		want := ra[i]
+		if rb[i] > want {
+			want = rb[i]
+		}
+		if rm[i] != want {
+			c.fail([]string{"C06", "C08"}, "hll-merge-not-union", fmt.Sprintf("%s: register %d of the merged sketch is %d, operands have %d and %d", cfg, i, rm[i], ra[i], rb[i]),
+				map[string]interface{}{"config": cfg, "a": ra, "b": rb, "merged": rm})
+			return
+		}
+	}
+	for _, fl := range hllFlags() {
+		v, _ := A.Count(fl[0], fl[1])
+		c.emit("hll.count %d %s %d %d %d", m, natList(rm), b2i(fl[0]), b2i(fl[1]), v)
+	}
+	c.branch("crafted-merge")
 }
